@@ -6,7 +6,15 @@ use std::panic::{catch_unwind, AssertUnwindSafe};
 pub struct Rng(pub u64);
 impl Rng {
     pub fn new(seed: u64) -> Self {
-        Rng(seed.wrapping_mul(0x9E3779B97F4A7C15).wrapping_add(0x1234_5678_9ABC_DEF1))
+        // scramble the seed so that nearby seeds do not give shifted copies of one stream
+        let mut z = seed ^ 0x1234_5678_9ABC_DEF1;
+        for _ in 0..2 {
+            z = (z ^ (z >> 30)).wrapping_mul(0xBF58476D1CE4E5B9);
+            z = (z ^ (z >> 27)).wrapping_mul(0x94D049BB133111EB);
+            z ^= z >> 31;
+            z = z.wrapping_add(0x9E3779B97F4A7C15);
+        }
+        Rng(z)
     }
     pub fn next(&mut self) -> u64 {
         // splitmix64
@@ -116,17 +124,23 @@ pub struct MonFailure {
     pub case: u64,
     pub step: u64,
     pub what: String,
+    /// classification of the failing case (matched against known_findings.json signatures)
+    pub tag: String,
 }
 impl Monitor {
     pub fn check(&mut self, property: &str, monitor: &str, ok: bool, what: impl FnOnce() -> String) {
+        self.check_tag(property, monitor, "", ok, what)
+    }
+    pub fn check_tag(&mut self, property: &str, monitor: &str, tag: &str, ok: bool, what: impl FnOnce() -> String) {
         *self.checks.entry(format!("{property}:{monitor}")).or_insert(0) += 1;
-        if !ok && self.failures.len() < 50 {
+        if !ok && self.failures.len() < 200 {
             self.failures.push(MonFailure {
                 property: property.into(),
                 monitor: monitor.into(),
                 case: self.case,
                 step: self.step,
                 what: what(),
+                tag: tag.into(),
             });
         }
     }
